@@ -104,7 +104,7 @@ func TestVerif_C14(t *testing.T) {
 		prevDbg := disableDebugGoroutines.Load()
 		disableDebugGoroutines.Store(true)
 		defer disableDebugGoroutines.Store(prevDbg)
-		c.Rule("a case = SETTINGS configuration (server/client max frame size, stream and connection windows, header table sizes, write scheduler, request before/after the SETTINGS exchange) x request shape (method, path, header set, body length, declared/undeclared length, body Read chunking, trailers) x response shape (status, 103, header set, body length, declared length, Write chunking, Flush, declared / TrailerPrefix trailers, handler order); parts: 'cover' = covering array of strength 2 (thorough: 3) over all 26 dimensions; 'request-product', 'response-product', 'header-product' = full products of the dimensions that interact in one direction; 'short-read' = base scenarios x every placement of <= 1 (thorough: <= 2) short reads (1 or 7 bytes) at every read index of either direction. non-trivial = the exchange completed and all request and response observations were compared; distinct = distinct frame-type traces on the wire (both directions)")
+		c.Rule("a case = SETTINGS configuration (server/client max frame size, stream and connection windows, header table sizes, write scheduler, request before/after the SETTINGS exchange) x request shape (method, path, header set, body length, declared/undeclared length, body Read chunking, trailers) x response shape (status, 103, header set, body length, declared length, Write chunking, Flush, declared / TrailerPrefix trailers, handler order); parts: 'cover' = covering array of strength 2 (thorough: 3) over all 27 dimensions; 'request-product', 'response-product', 'header-product' = full products of the dimensions that interact in one direction; 'header-block-boundary' = a request / response header block whose encoded length is swept byte by byte from 160 below to 8 above 16384 (thorough: and 32768, and with 16 MB frames allowed), the observed block lengths at distance <= 2 of the boundary are recorded as outcomes; 'short-read' = base scenarios x every placement of <= 1 (thorough: <= 2) short reads (1 or 7 bytes) at every read index of either direction. non-trivial = the exchange completed and all request and response observations were compared; distinct = distinct frame-type traces on the wire (both directions), distinct header block lengths, distinct truncating short-read placements")
 		c.Assume("excluded from the domain: request trailers without a request body stream; handlers that answer with a status > 299 before reading the request body (the Transport then stops sending the body by documented heuristic); 204/304 with content; bodies that would need more than 4000 window refills (1-byte windows with large bodies: cost); Expect: 100-continue, CONNECT, hop-by-hop fields, gzip (DisableCompression), Transfer-Encoding, Host/Priority/Trailer/Te fields set by the application; server push; more than one request per connection (see C08-C11, C15, C17 for concurrency)")
 		c.Assume("allow-list of fields the libraries add: request User-Agent default and Content-Length (must equal the body length); response Date (any value) and Content-Length (must equal the number of bytes the handler wrote); Content-Type sniffing is avoided by always setting Content-Type; HEAD responses carry neither body nor trailers; values of one field name are compared in order, different names as a multiset; names are compared after net/http canonicalisation")
 		c.Assume("goroutine schedules are those the Go scheduler produces with GOMAXPROCS=1 inside the bubble plus the variations induced by Early and by short reads; no preemption points inside library calls are enumerated")
@@ -176,12 +176,55 @@ func TestVerif_C14(t *testing.T) {
 		product("response-product", rs, resVary)
 
 		hd := c14Base()
-		hd.ReqBody, hd.ReqDecl, hd.ResBody = 10, false, 10
+		hd.ReqBody, hd.ReqDecl, hd.ResBody, hd.Repeat = 10, false, 10, 2
 		hdrVary := []string{"c_tbl", "s_tbl", "req_trl", "res_trl", "req_hdr", "res_hdr"}
 		if wide {
 			hdrVary = append([]string{"early"}, hdrVary...)
 		}
 		product("header-product", hd, hdrVary)
+
+		// ---- header block length swept across the frame-size boundaries
+		vx.Enumerate(c, "header-block-boundary", vx.Opts{Serial: true, Crumb: true}, func(yield func(c14Case) bool) {
+			for _, side := range []string{"req", "res"} {
+				for _, big := range vx.Pick(c, []bool{false}, []bool{false, true}) {
+					for k := 1; k <= vx.Pick(c, 1, 2); k++ {
+						for n := k*16384 - 160; n <= k*16384+8; n++ {
+							x := c14Base()
+							x.Method, x.ReqBody, x.ReqHdr, x.ResHdr, x.ResBody = "GET", 0, 0, 0, 5
+							if big {
+								x.SFrame, x.CFrame = 1<<24-1, 1<<24-1
+							}
+							if side == "req" {
+								x.ReqPad = n
+							} else {
+								x.ResPad = n
+							}
+							if !yield(x) {
+								return
+							}
+						}
+					}
+				}
+			}
+		}, func(w *vx.W, x c14Case) {
+			st, ok := c14Run(w, x)
+			if !ok {
+				return
+			}
+			w.Nontrivial()
+			side, blk := "req", st.c2s.firstBlock
+			if x.ResPad > 0 {
+				side, blk = "res", st.s2c.firstBlock
+			}
+			cls := "away-from-boundary"
+			for k := 1; k <= 2; k++ {
+				if d := blk - k*16384; d >= -2 && d <= 2 {
+					cls = fmt.Sprintf("%dx16384%+d", k, d)
+				}
+			}
+			w.Outcome(fmt.Sprintf("header-block %s big-frames=%v %s", side, x.SFrame > 16384, cls))
+			w.Distinct(fmt.Sprintf("hb|%s|%d", side, blk))
+		})
 
 		// ---- short reads
 		type shortCase struct {
